@@ -6,15 +6,18 @@ import numpy
 import coqemit as E
 
 ID = "C17"
-LEVEL_TEXT = ("Coq theorems over an executable model of the four sampling utilities: stochastic universal sampling returns exactly k "
-              "draws and selects every element floor or ceiling of its expected count (never a zero-weight element) for every weight "
-              "vector, every order of the elements, every offset in [0, tot/k) and every shuffle (exact-rational pointers), and for an "
-              "arbitrary non-decreasing pointer list the count of an element is the number of pointers in its cumulative-weight interval "
-              "(this covers the binary64 pointers the code really computes; two rounding counterexamples of the binary64 pointers are "
-              "proved and reproduced); tiled choice uses every option q or q+1 times; an axis shuffle moves values only inside each "
-              "requested slice; outcross shuffling preserves the multiset, never raises the duplicate count, terminates within "
-              "score+1 passes and stops only at a 2-exchange local optimum. The model (bit-exact binary64 for the pointers) is evaluated "
-              "inside Coq against the implementation's outputs on generated inputs with scripted draws")
+LEVEL_TEXT = ("Coq theorems over an executable model of the four sampling utilities and sliceaxisix. Stochastic universal sampling: "
+              "exactly k draws, every element drawn floor or ceiling of its expected count and never a zero-weight element, for every "
+              "non-negative weight vector, every layout order (any tie-breaking of the sort), every k >= 1, every offset in [0, tot/k) and "
+              "every shuffle (exact-rational pointers); for an arbitrary non-decreasing pointer list (this covers the binary64 pointers the "
+              "code computes) the count of an element is the number of pointers in its cumulative-weight cell, a zero-weight element is "
+              "never drawn unless a pointer reaches the total, and the binary64 walk equals the ideal walk whenever its pointers fall in the "
+              "same cells; two rounding counterexamples of the binary64 pointers (floor/ceil, zero weight) and the two repaired defects "
+              "are proved as _refuted theorems and reproduced on the implementation. Tiled choice uses every option q or q+1 times; an axis "
+              "shuffle permutes the values inside every slice produced by sliceaxisix, the slices being pairwise disjoint and covering the "
+              "array; outcross shuffling preserves the multiset, never raises the duplicate count, needs at most score+1 passes for every "
+              "oracle and stops only at a 2-exchange local optimum. The model (bit-exact binary64 for pointer distance, pointers and "
+              "cumulative sums) is evaluated inside Coq against the implementation's outputs on generated inputs with scripted draws")
 LEVEL_NOTE = ("trusted: Coq kernel + vm_compute, PrimFloat primitives (Prim2SF gives the exact value of a double); numpy's sum of "
               "fewer than 8 doubles is left-to-right (checked differentially), longer weight vectors are generated with exact sums; "
               "scripted numpy Generator stands for every generator state (draw values are universally quantified in the theorems); "
@@ -240,6 +243,15 @@ class _Limited(numpy.random.Generator):
             raise RuntimeError("more than %d shuffle passes requested" % self.limit)
         return super().shuffle(x, axis)
 
+def _scripted(**kw):
+    """rngscript.Scripted that also records the probability vector handed to choice()"""
+    from rngscript import Scripted
+    class _Scr(Scripted):
+        def choice(self, a, size=None, replace=True, p=None, axis=0, shuffle=True):
+            self.plog = getattr(self, "plog", []) + [None if p is None else [float(v) for v in p]]
+            return super().choice(a, size, replace, p, axis, shuffle)
+    return _Scr(**kw)
+
 def _mk_view(data, shape, layout):
     """returns (base, view) with view.shape == shape holding `data` in C order"""
     arr = numpy.array(data, dtype=numpy.int64).reshape(shape)
@@ -293,14 +305,14 @@ def _run_impl(case):
         p = None if case.get("p") is None else numpy.array(case["p"], dtype=float)
         a0 = a.copy()
         if "seed" in case: rng = numpy.random.Generator(numpy.random.PCG64(case["seed"]))
-        else: rng = Scripted(choices=[case["choice"]], perms=[] if case["perm"] is None else [case["perm"]])
+        else: rng = _scripted(choices=[case["choice"]], perms=[] if case["perm"] is None else [case["perm"]])
         try:
             r = numpy.asarray(sampling.tiled_choice(a, size, case["replace"], p, rng))
             out["shape"] = list(r.shape); out["out"] = [int(x) for x in r.ravel()]; out["dtype"] = str(r.dtype)
         except Exception as e:
             out["raised"] = type(e).__name__; out["msg"] = str(e)[:200]
         if "seed" not in case:
-            out["log"] = _log(rng); out["left"] = [len(rng.q["choice"]), len(rng.q["perm"])]
+            out["log"] = _log(rng); out["left"] = [len(rng.q["choice"]), len(rng.q["perm"])]; out["choice_p"] = getattr(rng, "plog", [])
         out["inputs_unchanged"] = bool(numpy.array_equal(a, a0))
         return out
     if fn == "axis":
@@ -414,6 +426,7 @@ def emit_case(case, out):
         # the requests made to the generator: choice(len(a), size|re, replace) then shuffle(nsample)
         n = len(case["a"])
         log = out["log"]
+        if out["choice_p"] != [case["p"]]: return "false"          # the probability vector must reach rng.choice unchanged
         if case["replace"]:
             if len(log) != 1 or log[0][0] != "choice" or log[0][1] != n or log[0][3] is not True: return "false"
             req = log[0][2] if isinstance(log[0][2], list) else [log[0][2]]
@@ -503,7 +516,8 @@ def _pred_axis(case, out):
     if "raised" in out:
         if all(d in ax for d in range(nd)) and old.size > 0: return []           # nothing left to shuffle: a[s] is a scalar
         if out["raised"] == "ScriptExhausted" or "scripted" in out.get("msg", ""):
-            return ["axis_shuffle requested other shuffles than one per requested slice: %s" % out["msg"]]
+            return ["axis_shuffle requested other shuffles than one per requested slice along its first free axis (requests %r): %s"
+                    % ([e[1] for e in out.get("log", [])], out["msg"])]
         return ["axis_shuffle raised %s: %s" % (out["raised"], out["msg"])]
     new = numpy.array(out["out"], dtype=numpy.int64).reshape(shape)
     if sorted(out["out"]) != sorted(case["data"]): bad.append("multiset of entries changed")
@@ -537,6 +551,10 @@ def _pred_outcross(case, out):
     if "raised" in out:
         if "shuffle passes" in out.get("msg", "") or out["raised"] == "ScriptExhausted":
             return ["outcross_shuffle did not stop within score+1 = %d passes" % (_score(x) + 1)]
+        if "bad scripted permutation" in out.get("msg", ""):
+            N = case["nc"] * case["m"]
+            return ["outcross_shuffle does not consider every pair of table entries: its exchange list has %s entries, the table has %d pairs (%s)"
+                    % ([e[1] for e in out.get("log", []) if e[0] == "shuffle"][-1:], N * (N - 1) // 2, out["msg"])]
         return ["outcross_shuffle raised %s: %s" % (out["raised"], out["msg"])]
     y = out["out"]
     if sorted(v for r in x for v in r) != sorted(v for r in y for v in r): bad.append("multiset of entries changed")
@@ -589,11 +607,47 @@ def _rounding_sensitive(case):
             if (cf[j] <= pf) != (cq[j] <= pq): return True
     return False
 
+def _float_walk(case, order):
+    """the selection (before the shuffle) the binary64 arithmetic of the current algorithm produces — harness' own arithmetic"""
+    p = numpy.array([_fh(h) for h in case["p"]], dtype=float)
+    k = _prod(case["size"])
+    cs = p[numpy.array(order, dtype=int)].cumsum()
+    d = p.sum() / numpy.int64(k)
+    ptrs = _fh(case["off"]) + d * numpy.arange(k)
+    ix = 0; sel = []
+    for ptr in ptrs:
+        while ix < len(cs) - 1 and cs[ix] <= ptr: ix += 1
+        sel.append(order[ix])
+    return sel
+
+def _exact_walk(case, order):
+    """the same walk in exact rational arithmetic (same offset)"""
+    p = [F(_fh(h)) for h in case["p"]]
+    k = _prod(case["size"])
+    cs = []; acc = F(0)
+    for i in order: acc += p[i]; cs.append(acc)
+    d = sum(p) / k; off = F(_fh(case["off"]))
+    ix = 0; sel = []
+    for t in range(k):
+        ptr = off + d * t
+        while ix < len(cs) - 1 and cs[ix] <= ptr: ix += 1
+        sel.append(order[ix])
+    return sel
+
+def _rounding_case(case, out):
+    """the implementation did exactly what the binary64 arithmetic of the current algorithm gives, and that differs from the
+    exact-arithmetic walk with the same offset (or the offset, below fl(fl(sum)/k), is not below the exact sum/k)"""
+    k = _prod(case["size"])
+    if "off" not in case or k <= 0 or "raised" in out: return False
+    fw = _float_walk(case, out["order"])
+    if sorted(out["out"]) != sorted(case["a"][i] for i in fw): return False
+    p = [F(_fh(h)) for h in case["p"]]
+    return sorted(fw) != sorted(_exact_walk(case, out["order"])) or not (F(_fh(case["off"])) < sum(p) / k)
+
 def classify(case, out, clauses):
     if case["fn"] == "sus" and clauses:
         if _prod(case["size"]) == 0 and "raised" in out: return "C17-sus-size-zero"
-        if "raised" not in out and "off" in case and _rounding_sensitive(case) and \
-           all(("selected" in c) for c in clauses): return "C17-sus-rounding-zero-weight" if any("zero weight" in c for c in clauses) else "C17-sus-rounding-floor-ceil"
+        if all(("selected" in c) for c in clauses) and _rounding_case(case, out): return "C17-sus-rounding-zero-weight" if any("zero weight" in c for c in clauses) else "C17-sus-rounding-floor-ceil"
     return None
 
 # ------------------------------------------------------------------ evidence helpers
@@ -629,8 +683,35 @@ def describe(case, out):
     return d
 
 def shrink(case, fails):
+    """drop weights (sus) / crosses (outcross) / options (tiled) while the predicate still fails and the scripted draws stay valid"""
     cur = copy.deepcopy(case)
-    if cur["fn"] == "sus" and "off" in cur:
-        # fewer draws first (keeps the offset kind by rescaling is not possible: only try when it still fails)
-        return cur
+    fn = cur["fn"]
+    if fn == "sus":
+        changed = True
+        while changed and len(cur["p"]) > 1:
+            changed = False
+            for i in range(len(cur["p"])):
+                t = copy.deepcopy(cur); del t["p"][i]; del t["a"][i]
+                w = [_fh(h) for h in t["p"]]; k = _prod(t["size"])
+                if sum(w) <= 0: continue
+                if "off" in t:
+                    if k <= 0: continue
+                    d = float(numpy.array(w, dtype=float).sum() / numpy.int64(k))
+                    if not (0.0 <= _fh(t["off"]) < d): continue
+                if fails(t): cur = t; changed = True; break
+    elif fn == "outcross":
+        changed = True
+        while changed and len(cur["x"]) > 1:
+            changed = False
+            for i in range(len(cur["x"])):
+                t = copy.deepcopy(cur); del t["x"][i]; t["nc"] -= 1
+                if "perms" in t:
+                    N = t["nc"] * t["m"]; t["perms"] = [list(range(N * (N - 1) // 2)) for _ in range(_score(t["x"]) + 1)]
+                if fails(t): cur = t; changed = True; break
+    elif fn == "tiled" and "seed" in cur:
+        while len(cur["a"]) > 1:
+            t = copy.deepcopy(cur); t["a"] = t["a"][:-1]
+            if t.get("p") is not None: t["p"] = [1.0 / len(t["a"])] * len(t["a"])
+            if fails(t): cur = t
+            else: break
     return cur
